@@ -9,7 +9,7 @@
    would really fail; see DESIGN.md).
    Linear half: the same for every reachable linear state. *)
 From Coq Require Import ZArith NArith List Lia.
-From Arsenal Require Import Util Bits Gran Tlsf TlsfStep TlsfProps SizeClass TlsfInv2 TlsfStep2 TlsfProps2 GranInv GranTlsf.
+From Arsenal Require Import Util Bits Gran Tlsf TlsfGeom TlsfInv1 TlsfStep TlsfProps SizeClass TlsfInv2 TlsfStep2 TlsfProps2 GranInv GranTlsf.
 From Arsenal Require Linear LinearInv LinearAlloc LinearFree LinearStep LinearSwap LinearVisit LinearProps.
 Import ListNotations.
 Open Scope Z_scope.
@@ -41,6 +41,12 @@ Theorem C03_tlsf_validate : forall h gr size ops,
   validate t = Some true.
 Proof. exact tlsf_reach_validate. Qed.
 Print Assumptions C03_tlsf_validate.
+
+Theorem C03_tlsf_vam_validate : forall gr size ops,
+  cfg2_ok gr size -> 1 <= gr < 65536 -> Forall op_ok ops -> Forall op_kind_ok ops ->
+  validate (run (tlsf_init HVam gr size) ops) = Some true.
+Proof. exact tlsf_vam_validate. Qed.
+Print Assumptions C03_tlsf_vam_validate.
 
 (* non-vacuity (TLSF): the hypotheses are met by a concrete history ending with three live blocks *)
 Example C03_tlsf_nonvacuous :
